@@ -182,6 +182,8 @@ Section Total2.
 Variable orc : Oracle.
 Variable ids : list Z.
 Variable V : nat.
+Variable big : Prop.
+Variable K : nat.
 
 Lemma Good_nclip st : Good ids V st -> nclip st <= size st.
 Proof. intros G. pose proof (G_count _ _ _ G). lia. Qed.
@@ -301,11 +303,11 @@ Proof.
 Qed.
 
 Lemma cutKeyhole_some fuel st rid ring H O Sm h :
-  GInv st rid ring -> BookF st rid ring [] (h :: H) O Sm ->
+  GInv st rid ring -> BookF big K st rid ring [] (h :: H) O Sm ->
   size st + 2 <= cap st -> nclip st + size st + 4 <= fuel ->
   exists r, cutKeyhole orc fuel st O h = Some r.
 Proof.
-  intros G B Hcap Hfu. destruct B as [_ _ Bh Bn Bd Bo Bs Bc].
+  intros G B Hcap Hfu. destruct B as [_ _ Bh Bn Bd Bo Bs Bc _].
   destruct (Bh h (or_introl eq_refl)) as [Hh Hlh].
   set (Q := fun v => v < size st /\ live st v = true /\ In (rid v) (map rid Sm)).
   assert (HQ : forall o v, In o O -> In v (ring (rid o)) -> Q v).
@@ -347,6 +349,8 @@ Section Total3.
 Variable orc : Oracle.
 Variable ids : list Z.
 Variable V : nat.
+Variable big : Prop.
+Variable K : nat.
 
 Lemma cutKeyhole_cap fuel st O h st' lost : cutKeyhole orc fuel st O h = Some (st', lost) -> cap st' = cap st.
 Proof.
@@ -359,14 +363,14 @@ Proof.
 Qed.
 
 Lemma cutKeyholes_some fuel O : forall H st rid ring Sm,
-  GInv st rid ring -> BookF st rid ring [] H O Sm -> Good ids V st -> nbad st = 0 ->
+  GInv st rid ring -> BookF big K st rid ring [] H O Sm -> Good ids V st -> nbad st = 0 ->
   size st + 2 * length H <= cap st -> 2 * cap st + 4 <= fuel ->
   exists r, cutKeyholes orc fuel st O H Sm = Some r.
 Proof.
   induction H as [|h t IH]; intros st rid ring Sm G B Gd Hz Hcap Hfu; cbn [cutKeyholes]; [eauto|]. unfold bind.
   pose proof (Good_nclip ids V st Gd) as Hnc. cbn [length] in Hcap.
-  destruct (cutKeyhole_some orc fuel st rid ring t O Sm h G B ltac:(lia) ltac:(lia)) as ([st1 lost] & Ek). rewrite Ek.
-  destruct (cutKeyhole_ring orc fuel st rid ring t O Sm h st1 lost G B Ek) as (A1 & A2 & A3 & A4 & rid1 & ring1 & G1 & B1).
+  destruct (cutKeyhole_some orc big K fuel st rid ring t O Sm h G B ltac:(lia) ltac:(lia)) as ([st1 lost] & Ek). rewrite Ek.
+  destruct (cutKeyhole_ring orc big K fuel st rid ring t O Sm h st1 lost G B Ek) as (A1 & A2 & A3 & A4 & rid1 & ring1 & G1 & B1).
   pose proof (cutKeyhole_cap fuel st O h st1 lost Ek) as Hc1.
   apply (IH st1 rid1 ring1 _ G1 B1).
   - apply (Step_Good ids V st st1 (cutKeyhole_step orc ids V _ _ _ _ _ _ Ek)); [lia|exact Gd].
@@ -546,41 +550,26 @@ Proof.
   destruct (initialize_good_state polys st1 starts Ei) as (Gd1 & Hb1 & _). fold V ids in Gd1.
   pose proof (IG_size _ _ IG) as Hsz1. fold V in Hsz1.
   pose proof (initialize_cap _ _ _ _ Ei) as Hcap1. cbn [reset cap] in Hcap1. fold V K in Hcap1.
-  destruct (initialize_ghost polys (reset polys) (fun _ => 0) (fun _ => []) 0 st1 starts (reset_ghost polys))
-    with (3 := Ei) as (_ & rid1 & ring1 & G1 & _ & Hlt & Hemp & Hmap & Hall & Hlen).
-  { reflexivity. } { cbn. intros; lia. }
+  destruct (init_ghost_full polys st1 starts Ei) as (rid1 & ring1 & G1 & R1 & Hmap & Hall & Hlen).
   destruct (sweep_some orc fuel (seq 0 (length (poly st1))) st1 rid1 ring1 G1) as (st2 & E2).
   { intros v Hv. apply in_seq in Hv. unfold size. lia. } { lia. }
   rewrite E2.
-  destruct (sweep_ring orc fuel _ st1 rid1 ring1 st2 G1 E2) as (A1 & A2 & A3 & ring2 & G2 & Hincl & _).
+  destruct (sweep_book orc fuel polys st1 starts rid1 ring1 st2 G1 R1 Hmap Hall E2) as (A1 & A2 & A3 & ring2 & G2 & B0).
   pose proof (Step_Good ids V st1 st2 (sweep_step orc ids V _ _ _ _ E2) ltac:(lia) Gd1) as Gd2.
   pose proof (sweep_cap _ _ _ _ E2) as Hcap2.
   pose proof (Good_nclip ids V st2 Gd2) as Hnc2.
   destruct (findStarts_some orc fuel st2 rid1 ring2 G2 ltac:(lia) starts [] [] []) as ([[holes outers] simples] & Ef).
   { rewrite Forall_forall in Hall. intros f Hf. rewrite A3. apply Hall. exact Hf. }
   rewrite Ef.
-  assert (B0 : BookF st2 rid1 ring2 starts [] [] []).
-  { constructor.
-    - intros f Hf. rewrite Forall_forall in Hall. split; [rewrite A3; apply Hall; exact Hf|]. cbn. auto.
-    - rewrite Hmap. apply seq_NoDup.
-    - intros h [].
-    - constructor.
-    - intros h x [].
-    - intros o [].
-    - intros x [].
-    - intros k Hk. left. rewrite Hmap. apply in_seq. cbn [Nat.add].
-      destruct (Nat.lt_ge_cases k (length polys)) as [|Hge]; [lia|].
-      exfalso. specialize (Hemp k ltac:(lia)). specialize (Hincl k). rewrite Hemp in Hincl.
-      destruct (ring2 k) as [|x t]; [cbn in Hk; lia|]. destruct (Hincl x (or_introl eq_refl)). }
-  destruct (findStarts_book orc fuel st2 rid1 ring2 G2 _ _ _ _ _ _ _ B0 Ef) as [B1 HlenH]. cbn [length] in HlenH.
-  destruct (cutKeyholes_some orc ids V fuel outers holes st2 rid1 ring2 simples G2 B1 Gd2 ltac:(lia)) as ([st3 simples'] & E3).
+  destruct (findStarts_book orc _ _ fuel st2 rid1 ring2 G2 _ _ _ _ _ _ _ B0 Ef) as [B1 HlenH]. cbn [length] in HlenH.
+  destruct (cutKeyholes_some orc ids V _ _ fuel outers holes st2 rid1 ring2 simples G2 B1 Gd2 ltac:(lia)) as ([st3 simples'] & E3).
   { fold K in Hlen. lia. } { lia. }
   rewrite E3.
-  destruct (cutKeyholes_ring orc fuel outers holes st2 rid1 ring2 simples st3 simples' G2 B1 E3)
+  destruct (cutKeyholes_ring orc _ _ fuel outers holes st2 rid1 ring2 simples st3 simples' G2 B1 E3)
     as (C1 & C2 & C3 & C4 & rid3 & ring3 & G3 & B3).
   pose proof (Step_Good ids V st2 st3 (cutKeyholes_step orc ids V _ _ _ _ _ _ _ E3) ltac:(lia) Gd2) as Gd3.
   apply (triangulatePolys_some orc ids V fuel simples' st3 rid3 ring3 G3 Gd3 ltac:(lia)).
-  - apply (B_simple _ _ _ _ _ _ _ B3).
+  - apply (B_simple _ _ _ _ _ _ _ _ _ B3).
   - fold K in Hlen. lia.
 Qed.
 End Total4.
